@@ -168,7 +168,13 @@ class Translator:
             elif op['k'] == 'descr':
                 k = 6
                 for a in live(op['actions'] if ab is None else op['actions'][:ab]):
-                    if a[0] == 'add':
+                    if a[0] == 'add' and op.get('iface') == 'entity' and str(a[1]) in tb.t['descrs']:
+                        # write_entity of a handle that exists is an UPDATE of that entity (descriptor and state are
+                        # written), not a rejected creation as add_descriptor would be
+                        acts.append(f'ADUpd {self.it.h(a[1])} {pay("descrs", a[1], 4)}')
+                        if self.kind(a[1], tb.t['descrs'][str(a[1])][2]) != KIND['ctx'] and str(a[1]) in tb.t['states']:
+                            acts.append(f'ADState {self.it.h(a[1])} {pay("states", a[1], 4)}')
+                    elif a[0] == 'add':
                         _, h, parent, tname, _n, _ws, *_slot = a
                         kk = TXK[TX_OF_TYPE[tname]]
                         self.kind_of.setdefault(h, kk)
